@@ -26,7 +26,7 @@ def point_scenario(pt):
     C = {
         "tree": "pt", "N": 2, "kind": ["strat", "sec"], "par": [1, 1], "kids": [[2], []], "names": ["r", "a"],
         "mult": [[1, 1], [mult, 1]], "fi": [False, False], "T": 1,
-        "px": [[], [NAN if price is None else [price, 1]]], "spread": [[], [[spread, 1]]],
+        "px": [[], [NAN if price is None else (list(price) if isinstance(price, (list, tuple)) else [price, 1])]], "spread": [[], [[spread, 1]]],
         "coupon": [[], [Z]], "costl": [[], [Z]], "costs": [[], [Z]],
         "comm": [COMMS[comm], COMMS["zero"]], "integer": bool(integer), "bidoffer": True, "D": 50000, "DW": 200000, "paper": False,
     }
@@ -35,6 +35,10 @@ def point_scenario(pt):
         ops.append({"op": "transact", "node": 2, "a": [pos, 1], "b": NAN, "upd": True})
         ops.append({"op": "update", "date": 1})
     a = amount
+    if amount == "closeop":
+        # the library's own close-out: close() allocates minus the value it computed itself
+        ops.append({"op": "close", "node": 1, "child": 2, "upd": True})
+        return {"C": C, "ops": ops}
     if amount == "closeout":
         a = -pos * (price or 0) * mult
     ops.append({"op": "allocate", "node": 2, "a": [a, 1] if isinstance(a, int) else a, "upd": True})
@@ -68,13 +72,19 @@ def grid(tier, rng):
     for price, m, pos, comm in itertools.product([10, 50], [1, 2], [0, 4, -4], ["zero"]):
         for a in amounts[::5]:
             pts.append((price, m, pos, 0, comm, a, False))
+    # close-outs at decimal prices (position * price does not always round-trip in floating point)
+    for price, m, pos, comm, integer in itertools.product([(3333, 100), (1234, 100), (1999, 100), (707, 10), (10001, 1000)], [1, 10], [37, 7, -13, 41], ["fix", "prop", "tier", "zero"], [True, False]):
+        if integer or comm in ("zero", "prop"):
+            pts.append((price, m, pos, 0, comm, "closeop", integer))
     # refused trades: missing and zero price
     for price in (None, 0):
         for a in (100, -100, 0):
             pts.append((price, 1, 0, 0, "zero", a, True))
     if tier == "quick":
-        rng.shuffle(pts)
-        pts = pts[:2400]
+        keep = [p_ for p_ in pts if p_[5] == "closeop"]
+        rest = [p_ for p_ in pts if p_[5] != "closeop"]
+        rng.shuffle(rest)
+        pts = rest[:2400] + keep
     return pts
 
 
